@@ -9,7 +9,8 @@
 (*             every attempt on it was rejected): the case (vocabulary of BlockCheck.tla), the    *)
 (*             set of header fields / inputs in which the tampered encoding really differs from   *)
 (*             the honest block with the same inputs, and the node's observation                  *)
-(*   Validate, Add - verdict of the real code, the stage it named, the observation afterwards     *)
+(*   Validate, Add - verdict of the real code, the stage it named, the observation afterwards;    *)
+(*             Add also carries `twin` (see StoredClause)                                         *)
 (*   Insert  - the honest original offered to the same node after the rejected attempt(s)         *)
 (*   Skip    - case not offered (not applicable to this original / encoding unchanged)            *)
 (*                                                                                                *)
@@ -96,8 +97,14 @@ TValidate == /\ Is("Validate") /\ phase = "begun"
              /\ verdict' = Line.r /\ first' = Line.stage
              /\ UNCHANGED <<kind, cs, blk, pc, orig, cur>>
 
+(* what an accepted block left behind: when the block the node now has as its head is, by hash, *)
+(* one of the honest blocks of this height (`twin` = complete observation of a clean node after *)
+(* inserting that honest block), the node must be in exactly that state: canonical header       *)
+(* bytes, tx index, every database key                                                          *)
+StoredClause(e) == {x \in {"StoredDiffersFromHonest"} : e.r = "accept" /\ e.twin # <<>> /\ e.post # e.twin}
+
 TAdd == /\ Is("Add") /\ phase = "validated"
-        /\ Report(OfferClauses(Line, "add"))
+        /\ Report(OfferClauses(Line, "add") \cup StoredClause(Line))
         /\ drift' = drift + DriftOf(Line) /\ TLCSet(2, drift')
         /\ node' = Line.post
         /\ clean' = (clean /\ Line.r = "reject")
